@@ -72,12 +72,13 @@ example :
     (Gen.run body env).trace = [[83], [67]] ∧ Gen.run body env = Denote.run body env := by
   decide
 
+set_option maxRecDepth 8192 in
 /-- T1: what the current source says where the model depends on it — the value-writer chain of
     writeExpressionAttribute, the cases of isInlineOrText, the hoisted attribute name and the script-attribute prefixes
     (the element tables voidElements / blockElements are used by the model directly from the extraction). -/
 theorem C02_pinned :
     Generated.exprAttrChain =
-      [[40, 101, 108, 101, 109, 101, 110, 116, 78, 97, 109, 101, 32, 61, 61, 32, 34, 97, 34, 32, 38, 38, 32, 97, 116, 116, 114, 46, 78, 97, 109, 101, 32, 61, 61, 32, 34, 104, 114, 101, 102, 34, 41, 32, 124, 124, 32, 40, 101, 108, 101, 109, 101, 110, 116, 78, 97, 109, 101, 32, 61, 61, 32, 34, 102, 111, 114, 109, 34, 32, 38, 38, 32, 97, 116, 116, 114, 46, 78, 97, 109, 101, 32, 61, 61, 32, 34, 97, 99, 116, 105, 111, 110, 34, 41, 32, 61, 62, 32, 119, 114, 105, 116, 101, 69, 120, 112, 114, 101, 115, 115, 105, 111, 110, 65, 116, 116, 114, 105, 98, 117, 116, 101, 86, 97, 108, 117, 101, 85, 82, 76],
+      [[40, 115, 116, 114, 105, 110, 103, 115, 46, 69, 113, 117, 97, 108, 70, 111, 108, 100, 40, 101, 108, 101, 109, 101, 110, 116, 78, 97, 109, 101, 44, 32, 34, 97, 34, 41, 32, 38, 38, 32, 115, 116, 114, 105, 110, 103, 115, 46, 69, 113, 117, 97, 108, 70, 111, 108, 100, 40, 97, 116, 116, 114, 46, 78, 97, 109, 101, 44, 32, 34, 104, 114, 101, 102, 34, 41, 41, 32, 124, 124, 32, 40, 115, 116, 114, 105, 110, 103, 115, 46, 69, 113, 117, 97, 108, 70, 111, 108, 100, 40, 101, 108, 101, 109, 101, 110, 116, 78, 97, 109, 101, 44, 32, 34, 102, 111, 114, 109, 34, 41, 32, 38, 38, 32, 115, 116, 114, 105, 110, 103, 115, 46, 69, 113, 117, 97, 108, 70, 111, 108, 100, 40, 97, 116, 116, 114, 46, 78, 97, 109, 101, 44, 32, 34, 97, 99, 116, 105, 111, 110, 34, 41, 41, 32, 61, 62, 32, 119, 114, 105, 116, 101, 69, 120, 112, 114, 101, 115, 115, 105, 111, 110, 65, 116, 116, 114, 105, 98, 117, 116, 101, 86, 97, 108, 117, 101, 85, 82, 76],
        [105, 115, 83, 99, 114, 105, 112, 116, 65, 116, 116, 114, 105, 98, 117, 116, 101, 40, 97, 116, 116, 114, 46, 78, 97, 109, 101, 41, 32, 61, 62, 32, 119, 114, 105, 116, 101, 69, 120, 112, 114, 101, 115, 115, 105, 111, 110, 65, 116, 116, 114, 105, 98, 117, 116, 101, 86, 97, 108, 117, 101, 83, 99, 114, 105, 112, 116],
        [97, 116, 116, 114, 46, 78, 97, 109, 101, 32, 61, 61, 32, 34, 115, 116, 121, 108, 101, 34, 32, 61, 62, 32, 119, 114, 105, 116, 101, 69, 120, 112, 114, 101, 115, 115, 105, 111, 110, 65, 116, 116, 114, 105, 98, 117, 116, 101, 86, 97, 108, 117, 101, 83, 116, 121, 108, 101],
        [101, 108, 115, 101, 32, 61, 62, 32, 119, 114, 105, 116, 101, 69, 120, 112, 114, 101, 115, 115, 105, 111, 110, 65, 116, 116, 114, 105, 98, 117, 116, 101, 86, 97, 108, 117, 101, 68, 101, 102, 97, 117, 108, 116]] ∧
